@@ -547,6 +547,17 @@ func (env *specEnv) call(e *ast.CallExpr) Val {
 			}
 		}
 		return env.fail(name + ": unknown type")
+	case "freshzero":
+		// freshzero(g): the ghost map g holds 0 at every reference that is not allocated yet
+		fv.nfresh++
+		q := fmt.Sprintf("fz%d", fv.nfresh)
+		return Val{T: "(forall ((" + q + " Int)) (=> (>= " + q + " " + env.st.alloc + ") (= (select " + arg(0).T + " " + q + ") 0)))", Sort: "Bool"}
+	case "same":
+		// same(a, b): identical values (SMT equality, e.g. the very same array value, not just equal elements)
+		if !need(2) {
+			return Val{T: "false"}
+		}
+		return Val{T: "(= " + arg(0).T + " " + arg(1).T + ")", Sort: "Bool"}
 	case "haskey":
 		if !need(2) {
 			return Val{T: "false"}
